@@ -102,6 +102,54 @@ def handler_bursts(tier):
     return out
 
 
+def clear_behind_stall(tier):
+    """a slow remote (its channel holds less than one frame, it reads frame by frame) is linked or syncing while
+    the lane is cleared and keys are written again: the write task's per-remote relief queue then holds
+    [clear, k1, k2, ..]; the remote reads a few frames (the clear leaves the queue alone), more operations on
+    the queued keys follow, then everything drains.  Exhaustive over lane x channel size x frames read x the
+    operations before / after the partial read x (linked | sync pending)."""
+    out = []
+    v = [300]
+
+    def nxt():
+        v[0] += 1
+        return v[0]
+
+    def cmd(lane, m, key=None, **kw):
+        a = {"k": "send", "r": 1, "lane": lane, "op": "cmd", "m": m}
+        if key is not None:
+            a["key"] = key
+        if m == "upd":
+            a["v"] = nxt()
+        a.update(kw)
+        return a
+    lanes = ("map", "omap", "tmap") if tier != "quick" else ("map", "omap")
+    firsts = [[("upd", 1), ("upd", 2)], [("upd", 1), ("upd", 2), ("upd", 3)], [("upd", 2), ("upd", 1), ("upd", 2)]]
+    seconds = [[("upd", 1)], [("rem", 1)], [("upd", 2), ("upd", 1)], [("upd", 1), ("clr", None), ("upd", 2)]]
+    for lane in lanes:
+        for cap in (16, 48):
+            for nread in (1, 2, 3):
+                for first in firsts:
+                    for second in seconds:
+                        for how in ("linked", "sync-before", "sync-after"):
+                            acts = [{"k": "attach", "r": 1, "cap": 4096}, {"k": "attach", "r": 2, "cap": cap},
+                                    {"k": "send", "r": 1, "lane": lane, "op": "link"},
+                                    {"k": "send", "r": 2, "lane": lane, "op": "link"},
+                                    {"k": "read", "r": 2, "n": 1},
+                                    cmd(lane, "upd", 3)]              # the frame the slow remote is stuck on
+                            if how == "sync-before":
+                                acts.append({"k": "send", "r": 2, "lane": lane, "op": "sync"})
+                            acts.append(cmd(lane, "clr"))
+                            acts += [cmd(lane, m, k) for m, k in first]
+                            if how == "sync-after":
+                                acts.append({"k": "send", "r": 2, "lane": lane, "op": "sync"})
+                            acts.append({"k": "read", "r": 2, "n": nread})
+                            acts += [cmd(lane, m, k) for m, k in second]
+                            acts += [{"k": "read", "r": 2, "n": 0}, {"k": "read", "r": 1, "n": 0}]
+                            out.append(acts)
+    return out
+
+
 def sync_composition_b3(tier, out, wd):
     """B3 on specs/SyncComposition.tla: the composition lane queues -> lane output channel -> write task -> replica.
     With the excuses of the open known findings (F5, F12) the invariants hold for every interleaving at small scope;
@@ -144,6 +192,7 @@ def run(tier, out):
     batches.append(("systematic sync placement", systematic(tier)))
     # repeated: the lane's HashMap iteration order (hence the sync order) differs from instance to instance
     batches.append(("handler bursts while syncing", handler_bursts(tier) * (4 if tier == "quick" else 12)))
+    batches.append(("clear behind a stalled remote", clear_behind_stall(tier)))
     for bi, (name, scripts) in enumerate(batches):
         cases, results = e2e.run_scripts(wd, scripts, {"store": True}, tag="run%d" % bi)
         for mod, proj, consts, tag in (("Trace_ValueView", lambda log: e2e.proj_value(log, VLANES), VC, "v"),
